@@ -643,7 +643,10 @@ fn run_block_on(c: &SchedCase) -> ExecOutcome {
             let sampled_at = recs.iter().find(|r| is_h(r, H_QUIESCE)).map(|r| r.seq).unwrap_or(0);
             let strict = parked_before_extra && we.seq < sampled_at;
             let polled_after = recs.iter().any(|r| is_h(r, H_POLL) && r.seq > wb.seq && (r.seq < first_extra || !strict));
-            let finished = ready.map(|r| r.seq < we.seq).unwrap_or(false);
+            // the future completed in a poll that was still in progress when the wake returned (or earlier):
+            // nothing is left to poll
+            let final_poll = recs.iter().filter(|r| is_h(r, H_POLL)).map(|r| r.seq).max().unwrap_or(0);
+            let finished = ready.map(|r| r.seq < we.seq || final_poll < we.seq).unwrap_or(false);
             let stopped = stop_begin.is_some();
             let went_around = recs.iter().any(|r| r.tid == 0 && is_site(r, Site::WaitPost) && r.seq > wb.seq && recs.iter().any(|q| q.tid == 0 && is_site(q, Site::WaitPre) && q.seq > r.seq));
             if !polled_after && !finished && !stopped && !went_around {
